@@ -327,7 +327,9 @@ theorem ticker_returns_by_deadline (R H hor : Nat) :
 /-- the same for the whole ticker: it returns within `H` of the send of the
     campaign that made it leader (`ago` before it started) or of its last
     successful renewal; this is the schedule condition `TAllowed` of the
-    timed system model, with calls of ANY duration. -/
+    timed system model, for calls that answer at once or never return
+    (`tickerRun`); calls of ANY duration: `tickd_leads_within_hold`
+    (Props/C15Ticker.lean). -/
 theorem ticker_leads_within_hold (R H ago n : Nat) (script : List TRes) :
     (∀ r, (tickerRun true R H ago n script).returned = some r →
         r ≤ (tickerRun true R H ago n script).deadline) ∧
